@@ -184,6 +184,14 @@ func c17NestedPrograms() []*progCase {
 		Pr(Idx(V("a"), N("2")), Idx(V("a"), N("7")), Idx(V("o"), N("3")), Mem(V("o"), "zz"), Idx(Idx(V("a"), N("5")), N("1")), Idx(S("ab"), N("9"))),
 		Pr(Idx(V("$"), N("4")), Mem(V("$"), "none"), Arr_(Idx(V("a"), N("3"))), Idx(V("a"), N("1"))))
 	out = append(out, &progCase{P: &Program{Rules: []*Rule{{Body: missing}}}, Files: []inFile{{"in.json", `[[1],{"x":1},"s"]`}}})
+	// doubles no numeral denotes (table 3.2: NaN, +Inf, -Inf), reached through num() and by overflow, bare and inside containers; and
+	// the empty key, keys that look like numbers, keys with a dot, a quote or a space
+	special := Blk(Ex(Asg("=", V("n"), CallE(V("num"), S("NaN")))), Ex(Asg("=", V("i"), CallE(V("num"), S("Inf")))),
+		Pr(V("n"), V("i"), Bin("-", N("0"), V("i")), Bin("*", CallE(V("num"), S("1e308")), N("10")), Bin("-", V("i"), V("i"))),
+		Pr(Arr_(V("n"), V("i"), Bin("-", N("0"), V("i"))), &ObjLit{Keys: []string{"k"}, Vals: []Expr{V("n")}}, Bin("+", V("n"), S("")), Bin("+", S("x"), V("i"))),
+		Pr(V("$")), Pr(Arr_(V("$"))),
+		Ex(Asg("=", Idx(V("c"), Mem(V("$"), "lang")), N("1"))), Ex(Asg("=", Idx(V("c"), S("")), N("2"))), Ex(Asg("=", Idx(V("c"), S("a.b")), N("3"))), Ex(Asg("=", Idx(V("c"), S("1")), N("4"))), Pr(V("c")))
+	out = append(out, &progCase{P: &Program{Rules: []*Rule{{Body: special}}}, Files: []inFile{{"in.json", `[{"": 1, "lang": ""}, {"": {"": []}, "a b": 2, "lang": "q\"t"}, {"lang": "-0", "0": 0, "-0": 1, "1e3": 2}]`}}})
 	for _, rules := range inplace {
 		for _, doc := range []string{`[{"n":1},{"n":2,"sub":{}},[1],[],"s",5]`, `{"n":1} [2]`} {
 			out = append(out, &progCase{P: &Program{Funcs: []*Func{bump}, Rules: rules}, Files: []inFile{{"in.json", doc}}})
